@@ -4736,3 +4736,64 @@ func ruleParamTwins(prog *Program, rep *Report, floor int, rels ...string) {
 		rep.Errorf("F-paramtwins compared %d pairs (floor %d)", n, floor)
 	}
 }
+
+// ---------------------------------------------------------------- G-runecase
+
+// matchRuneCase: the case functions of package unicode work on code points. Handing them one byte of a string
+// (unicode.ToUpper(rune(b[0]))) treats the first byte of a multi-byte character as a character of its own: the
+// text is left unchanged or, when the result is stored back as a byte, corrupted.
+func matchRuneCase(files []*ast.File, info *types.Info) (sites []synSite, examined int) {
+	for _, f := range files {
+		ast.Inspect(f, func(n ast.Node) bool {
+			call, ok := n.(*ast.CallExpr)
+			if !ok || len(call.Args) != 1 {
+				return true
+			}
+			sel, ok := call.Fun.(*ast.SelectorExpr)
+			if !ok {
+				return true
+			}
+			fn, ok := info.Uses[sel.Sel].(*types.Func)
+			if !ok || fn.Pkg() == nil || fn.Pkg().Path() != "unicode" {
+				return true
+			}
+			examined++
+			conv, ok := ast.Unparen(call.Args[0]).(*ast.CallExpr)
+			if !ok || len(conv.Args) != 1 {
+				return true
+			}
+			if tv, ok := info.Types[conv.Fun]; !ok || !tv.IsType() {
+				return true
+			}
+			if b, ok := info.TypeOf(conv.Args[0]).Underlying().(*types.Basic); ok && b.Kind() == types.Uint8 {
+				name := enclosingFuncName(f, call.Pos())
+				sites = append(sites, synSite{pos: call.Pos(), file: f, key: fmt.Sprintf("%s:unicode.%s-of-byte", name, fn.Name()),
+					msg: fmt.Sprintf("%s applies unicode.%s to one byte (%s): for a character outside ASCII that byte is only the first of several", name, fn.Name(), types.ExprString(call.Args[0]))})
+			}
+			return true
+		})
+	}
+	return
+}
+
+const fixtureRuneCase = `package fixture
+
+import "unicode"
+
+func title(s string) string {
+	b := []byte(s)
+	if 0 < len(b) {
+		b[0] = byte(unicode.ToUpper(rune(b[0])))
+	}
+	ra := []rune(s)
+	if 0 < len(ra) {
+		ra[0] = unicode.ToUpper(ra[0])
+	}
+	return string(b) + string(ra)
+}
+`
+
+func ruleRuneCase(prog *Program, rep *Report, floor int, rels ...string) {
+	rep.Rules = append(rep.Rules, "G-runecase: the functions of package unicode are applied to runes, never to a single byte of a string converted with rune(b[i]) ("+strings.Join(rels, ", ")+")")
+	runSynRule(prog, rep, "G-runecase", rels, matchRuneCase, fixtureRuneCase, 1, floor)
+}
